@@ -910,6 +910,7 @@ def ig_check(spec, root):
 
 # ------------------------------------------------------- controller synthesis
 DYN_STEPS = 16
+DYN_TIME = 2.0
 DYN_RAW_Q = ("linear", "peaks_1", "cornejo_maceda", "linear_3")
 
 
@@ -920,7 +921,7 @@ def dyn_rebuild(o):
     sub = ts[[0, len(ts) // 2, len(ts) - 1]]
     s = System(o.name, o.state_dims, o.control_dims, o.state_dim_mod,
                o.state_dims_in_j, o.gamma, o.test_starting_states[:2], sub,
-               10, 10.0, DYN_STEPS, 10.0, (0, ))
+               10, DYN_TIME, DYN_STEPS, DYN_TIME, (0, ))
     s.equations = o.equations
     return s
 
@@ -1469,8 +1470,8 @@ def run(ctx: Ctx) -> None:
     ctx.assume("seeds are the three-member alphabet, budgets {1, 2, 17}")
     ctx.assume("instance generation with inner budget "
                f"{INNER_FES} FEs x {INNER_RUNS} runs; controller synthesis "
-               f"on systems rebuilt with 3 training cases and {DYN_STEPS} "
-               "steps")
+               f"on systems rebuilt with 3 training cases, {DYN_STEPS} "
+               f"steps and time horizon {DYN_TIME}")
     ctx.assume("the two setups of experiment_surrogate are executed without "
                "log file and without fancy logs: moptipy's "
                "BiPopCMAES(log_restarts=True) cannot write its restart "
